@@ -117,6 +117,12 @@ def plan_scenario(job):
         isolate.rmscratch(d)
         return rec, jobs
     isolate.rmscratch(d)
+    if restarted and (r0.get("config_none") or (r0.get("exc") and r0["exc"][0] == "setup_config")):
+        # the scenario starts from a run that was killed between steps (no crash inside a step yet): it must be restartable
+        rec.case(key=["plan", digest(sc)], nontrivial=True, classes=["plan:restart-after-kill-between-steps"])
+        rec.violation("C08:restart-after-a-kill-between-steps-refused", f"setup_config: {'returned None' if r0.get('config_none') else r0['exc'][1:3]}; scenario={sc}",
+                      {"part": "plan", "scenario": sc})
+        return rec, jobs
     if r0.get("exc"):
         rec.error(f"plan: plain run raised {r0['exc'][:3]} scenario={sc}")
         return rec, jobs
@@ -333,5 +339,9 @@ def replay(ctx, data):
         i, ekind, rel, size, nlog = hit
         cut = {"empty": 0, "prefix": (size or 0) // 2, "all-but-one-byte": max(0, (size or 1) - 1)}[data.get("cut", "prefix")] if ekind == "commit" else 0
         ctx.merge(crash_job((ctx.pid, sc, kind, target, restarted, i, ekind, rel, cut, size, nlog)))
+        return
+    if data.get("part") == "plan":
+        rec, _ = plan_scenario((ctx.pid, data["scenario"], ctx.seed, True))
+        ctx.merge(rec)
         return
     ctx.merge(crash_job(tuple([ctx.pid] + list(data["job"]))))
